@@ -155,6 +155,45 @@ Proof.
       * rewrite (FT_S_unsched i Es). auto.
 Qed.
 
+(** bookkeeping of one scheduled check (used by the progress proofs) *)
+Lemma check_step : forall i t1 cv ft cv', Inv i t1 cv ft -> sched i = true -> conv_update cv t1 = Ok cv' ->
+  ft_update ft (Z.to_nat nl) t1 (c_d cv') = FT (Datatypes.S i) /\
+  converged cv' && ft_reached (FT (Datatypes.S i)) ftl = stop_at i /\
+  c_t cv' = t1 /\ c_e cv' = e.
+Proof.
+  intros i t1 cv ft cv' (Ht1 & Hct & Hce & Hft & _) Es Ecu.
+  destruct (conv_update_ok _ _ _ Ecu) as (Hct' & Hce' & Hd').
+  assert (HD : c_d cv' = D i).
+  { rewrite Hd'. unfold D. rewrite Hct, Ht1, (last_sched i Es). reflexivity. }
+  split; [|split; [|split]].
+  - rewrite (FT_S_sched i Es), HD, Hft, Ht1. reflexivity.
+  - unfold stop_at, converged. rewrite HD, Hce', Hce. reflexivity.
+  - exact Hct'.
+  - congruence.
+Qed.
+
+Lemma Inv_next_sched : forall i t1 cv ft cv' t1', Inv i t1 cv ft -> sched i = true -> conv_update cv t1 = Ok cv' ->
+  iter_step ct ap a t1 = Ok t1' -> (forall m, mx = Some m -> Datatypes.S i <= m) ->
+  Inv (Datatypes.S i) t1' cv' (FT (Datatypes.S i)).
+Proof.
+  intros i t1 cv ft cv' t1' HI Es Ecu Eit Hlim.
+  destruct (check_step i t1 cv ft cv' HI Es Ecu) as (_ & _ & Hct' & Hce').
+  destruct HI as (Ht1 & _). unfold Inv. split; [|split; [|split; [|split]]]; auto.
+  - rewrite X_S. unfold step_tot. rewrite <- Ht1, Eit. reflexivity.
+  - rewrite (last_succ_sched i Es), Hct'. auto.
+Qed.
+
+Lemma Inv_next_unsched : forall i t1 cv ft t1', Inv i t1 cv ft -> sched i = false ->
+  iter_step ct ap a t1 = Ok t1' -> (forall m, mx = Some m -> Datatypes.S i <= m) ->
+  Inv (Datatypes.S i) t1' cv ft.
+Proof.
+  intros i t1 cv ft t1' (Ht1 & Hct & Hce & Hft & _) Es Eit Hlim.
+  unfold Inv. split; [|split; [|split; [|split]]]; auto.
+  - rewrite X_S. unfold step_tot. rewrite <- Ht1, Eit. reflexivity.
+  - rewrite (last_succ_unsched i Es). auto.
+  - rewrite (FT_S_unsched i Es). auto.
+Qed.
+
 End Run.
 
 (** ** Compute: validation, then the loop *)
